@@ -63,6 +63,10 @@ def perform(act, sim, rec):
             os.chmod(p, act['mode'])
     elif op == 'mkdir':
         os.makedirs(p, exist_ok=True)
+    elif op == 'symlink':
+        # target is used verbatim: dangling links and loops are legal things for a child to leave behind
+        if not os.path.lexists(p):
+            os.symlink(act['target'], p)
     else:
         raise KeyError('unknown action ' + op)
     sim.ev('child_action', tag=rec['tag'], op=op, path=sim.world.norm(p))
